@@ -271,8 +271,14 @@ func (nfs *Nfs) NFSPROC3_READ(args nfstypes.READ3args) nfstypes.READ3res {
 	defer nfs.recordOp(nfstypes.NFSPROC3_READ, time.Now())
 	var reply nfstypes.READ3res
 	util.DPrintf(1, "NFS Read %v %d %d\n", args.File, args.Offset, args.Count)
+	// A READ fills the holes it passes: like WRITE's, its count bounds the
+	// size of a transaction.  A larger count gets a short read.
+	var count = uint64(args.Count)
+	if count > wtmax {
+		count = wtmax
+	}
 	op, data, eof, err := nfs.doRead(args.File, nfstypes.NF3REG,
-		uint64(args.Offset), uint64(args.Count))
+		uint64(args.Offset), count)
 	if err != nfstypes.NFS3_OK {
 		errRet(op, &reply.Status, err)
 		return reply
